@@ -1,7 +1,7 @@
 """C14 (build / resolve linkage) and C15 (optimize) over hand-built graphs: streams G-res and G-opt."""
 import random, json, itertools, copy
 import graphs, fences_env, core
-from common import Check, run_driver
+from common import Check, run_driver, limited, ImplTimeout
 
 N = graphs.N
 FUEL = 700
@@ -274,6 +274,13 @@ def tables_of(nodes):
 
 
 def oracle_c15(ops, root):
+    try:
+        return limited(6, _oracle_c15, ops, root)
+    except ImplTimeout:
+        return [("optimize-or-walk-hangs", "optimize(), items() or check_consistency does not return within 6 s on this graph")]
+
+
+def _oracle_c15(ops, root):
     from fences.core.debug import check_consistency
     res = []
     nodes = graphs.build(ops)
@@ -312,6 +319,13 @@ def strip_wf(line):
 
 
 def observe_opt(ops, root):
+    try:
+        return limited(6, _observe_opt, ops, root)
+    except ImplTimeout:
+        return "opt=timeout"
+
+
+def _observe_opt(ops, root):
     nodes = graphs.build(ops)
     try:
         nodes[root].optimize()
